@@ -346,6 +346,22 @@ def shard(ctx):
                            "frag": True, "container": cont, "scripting": bool(pi % 2)})
             ctx.count("container_probe_cases")
             ctx.add("containers", cont)
+    # the insertion-mode x token walk of C01's catalogue (every context prefix x every probe token), here for totality:
+    # builders alternate, every fourth case is also run as a fragment in a rotating context
+    from . import c01 as _c01
+    pr = _c01.probes()
+    kk = 0
+    for pi, pre in enumerate(_c01.PREFIXES):
+        for qi, q in enumerate(pr):
+            kk += 1
+            if not ctx.mine(kk):
+                continue
+            run_case(ctx, {"input": pre + q + "y<b>z", "src": "str", "builder": ("etree-full", "dom")[(pi + qi) % 2], "ns": True, "frag": False,
+                           "container": None, "scripting": bool(qi % 2)})
+            if kk % 4 == 0:
+                run_case(ctx, {"input": pre + q, "src": "str", "builder": ("dom", "etree")[(pi + qi) % 2], "ns": bool(qi % 3), "frag": True,
+                               "container": CONTAINERS[(pi + qi) % len(CONTAINERS)], "scripting": False})
+            ctx.count("mode_token_walk_cases")
     # every short token sequence, both builders, document and one fragment context (bounded-exhaustive)
     for qi, q in enumerate(gen.token_sequences(ctx, 2, 3, 0.3, min_seconds=120.0)):
         for kind in ("etree-full", "dom"):
